@@ -6,7 +6,7 @@
  R5  aliasing structure: slice forwards to the same buffer at offset+offset_, Serial slices point into the buffer; clone allocates a fresh buffer
  R6  Serial byte movers move exactly `bytes` between ptr+offset operands with the right roles
 """
-from vlib.facts import kids, strip, walk, is_call, call_args, call_object, callee, render, is_null_const
+from vlib.facts import noid, kids, strip, walk, is_call, call_args, call_object, callee, render, is_null_const
 from vlib.work import AnalysisBroken
 
 UNITS = ["src/core/memory.cpp", "src/occa/internal/core/memory.cpp", "src/occa/internal/modes/serial/memory.cpp",
@@ -331,6 +331,26 @@ def run(ctx):
             want_dst, want_src = ("this", ps[2]["d"]), (ps[0]["n"], ps[3]["d"])
         else:
             want_dst, want_src = ("this", ps[2]["d"]), ("param", ps[0]["d"])
+        # every call of the mover moves: the only early exit is "nothing to move"
+        early = []
+        for r in [x for x in f.walk() if x["k"] == "ReturnStmt"]:
+            if f.cfg.before(c, r):
+                continue
+            facts = [(noid(k).replace(" ", ""), pol) for (k, pol) in f.cfg.facts_at(r)]
+            nothing = any((k in ("(bytes==0)", "(0==bytes)", "(!bytes)") and pol) or (k in ("bytes", "(bytes!=0)", "(bytes>0)") and not pol) for (k, pol) in facts)
+            if mem2mem and len(ps) >= 4:
+                o1, o2 = ps[2]["n"], ps[3]["n"]
+                # copying a range onto itself: same object and equal offsets
+                nothing = nothing or (any(k in ("(%s==%s)" % (o1, o2), "(%s==%s)" % (o2, o1)) and pol for (k, pol) in facts)
+                                      and any("this" in k and "==" in k and pol for (k, pol) in facts))
+            if not nothing:
+                early.append(r)
+        fall = f.cfg.find_path((f.cfg.entry, 0), "exit", lambda b, i, e: e == c["i"] or any(e == r["i"] for r in f.walk() if r["k"] == "ReturnStmt"), start_after=False)
+        okm = not early and fall is None
+        R.ob("C02-R6", okm, fname, "mover:every call moves (early exit only for bytes == 0)", f.site(early[0]) if early else f.site(c),
+             "no path skips the move" if okm else
+             "a path returns without moving anything although bytes > 0 (%s): the copy is silently dropped - m.copyFrom(m, 4, 0, 4) leaves the destination range unchanged" %
+             next((noid(render(kids(a_)[0], False))[:60] for a_ in (f.ancestors(early[0]) if early else []) if a_["k"] == "IfStmt"), "early return"))
         R.ob("C02-R6", shape(dst) == want_dst, fname, "mover:dest", f.site(c), "destination operand is %s" % render(dst, False))
         R.ob("C02-R6", shape(src) == want_src, fname, "mover:src", f.site(c), "source operand is %s" % render(src, False))
 
